@@ -1,3 +1,4 @@
+import WS.Lemmas.AuditGaps
 import WS.Lemmas.PreparedSend
 import WS.Model.Sched
 import WS.Model.Writer
@@ -137,6 +138,24 @@ open WS.PreparedSend in
 theorem open_writer_fails_at_close (s : W) (he : s.writeErr.isSome) (h : Nat) (dn : List Bytes) (full : Bytes) :
     (hClose s h dn full).1.isSome := by
   first | exact PreparedSend.close_after_close_fails .. | (apply PreparedSend.close_after_close_fails <;> assumption)
+
+
+open WS.Codec WS.ReaderDecodes WS.RoleGeneric WS.AuditGaps in
+/-- a close frame that went out latches exactly ErrCloseSent … -/
+theorem close_latches_ErrCloseSent (s : W) (d : Int) (b0 b1 : Bytes) (h : (connWrite s 8 d b0 b1).1 = none) :
+    (connWrite s 8 d b0 b1).2.writeErr = some .closeSent := by
+  first | exact AuditGaps.close_sets_closeSent .. | (apply AuditGaps.close_sets_closeSent <;> assumption)
+
+open WS.Codec WS.ReaderDecodes WS.RoleGeneric WS.AuditGaps in
+/-- … and with it latched every otherwise valid request — WriteMessage, NextWriter, WriteControl (deadline not
+    already past), WritePreparedMessage — fails with exactly ErrCloseSent and leaves the wire unchanged -/
+theorem requests_fail_with_closeSent (s : W) (h : s.writeErr = some .closeSent) :
+    (∀ t data, (t = 1 ∨ t = 2) → (writeMessage s t data).1 = some .closeSent ∧ (writeMessage s t data).2.wire = s.wire) ∧
+    (∀ t, (t = 1 ∨ t = 2) → ∃ s', nextWriter s t = (.error .closeSent, s') ∧ s'.wire = s.wire) ∧
+    (∀ t data d, (t = 8 ∨ t = 9 ∨ t = 10) → data.length ≤ 125 → 0 ≤ d →
+        (writeControl s t data d).1 = some .closeSent ∧ (writeControl s t data d).2.wire = s.wire) ∧
+    (∀ t img, (writePreparedImage s t img).1 = some .closeSent ∧ (writePreparedImage s t img).2.wire = s.wire) := by
+  first | exact AuditGaps.requests_fail_with_closeSent .. | (apply AuditGaps.requests_fail_with_closeSent <;> assumption)
 
 
 /-! ### non-vacuity -/
